@@ -520,3 +520,14 @@ PROPS['C15']['required_tags'] += ['huge-view']
 PROPS['C18']['required_tags'] += ['bitset-self-op', 'pcg-crafted-threshold']
 PROPS['C19']['required_tags'] += ['fmt-13-arguments']
 PROPS['C20']['required_tags'] += ['printf-null-pointer-args', 'to_number-wide-views']
+
+# ---- classes added after the seventh seeding round
+PROPS['C06']['required_tags'] += ['default-constructed-comparator']
+PROPS['C13']['required_tags'] += ['vector-detach']
+PROPS['C14']['required_tags'] += ['tracked-keys-trivial-values']
+PROPS['C16']['required_tags'] += ['destroyed-nonempty-tracked-keys']
+PROPS['C17']['required_tags'] += ['extra-8', 'expected-wide-error-enum', 'optional-assign-empty-braces']
+PROPS['C18']['required_tags'] += ['bitset-chained-mutators', 'array-concat-lvalue-strings']
+PROPS['C19']['required_tags'] += ['logger-256', 'logger-257', 'logger-65536', 'logger-65537']
+PROPS['C20']['required_tags'] += ['printf-all-positional-exact-args', 'cmdline-generated-option-table']
+PROPS['C07']['required_tags'] += ['toggle-small-node-pool', 'reinsert-into-empty-tree']
